@@ -672,7 +672,7 @@ func runBatch(r *lib.Run, mode, kind string, shard, nshards, sampleOneIn int) {
 		rec(nil, newModel())
 		r.Note("exhaustive", fmt.Sprintf("all sequences of %d applicable ops over a %d-op alphabet (3 names + 1 spare, identities created on demand), sampled 1 in %d; sequences whose prefix already showed a listed finding are skipped", L, len(alpha), sampleOneIn))
 	case "rand":
-		nseq, nops := r.Pick(100, 1000), 40
+		nseq, nops := r.Pick(60, 600), 40
 		rng := r.SubRng("c21-rand-" + kind)
 		for s := 0; s < nseq; s++ {
 			seed := rng.Int63()
@@ -761,15 +761,15 @@ func main() {
 	var jobs []job
 	exhShards := r.Pick(2, 4)
 	for s := 0; s < exhShards; s++ {
-		jobs = append(jobs, job{fmt.Sprintf("exh-leveldb-%d", s), []string{"exh", "leveldb", fmt.Sprint(s), fmt.Sprint(exhShards), "1"}})
+		jobs = append(jobs, job{fmt.Sprintf("exh-leveldb-%d", s), []string{"exh", "leveldb", fmt.Sprint(s), fmt.Sprint(exhShards), fmt.Sprint(r.Pick(1, 3))}})
 	}
 	for _, k := range []string{"leveldb2", "leveldb3"} {
-		jobs = append(jobs, job{"exh-" + k, []string{"exh", k, "0", "1", fmt.Sprint(r.Pick(6, 8))}})
+		jobs = append(jobs, job{"exh-" + k, []string{"exh", k, "0", "1", fmt.Sprint(r.Pick(6, 24))}})
 	}
 	for _, k := range lib.FilerStoreKinds {
 		jobs = append(jobs, job{"rand-" + k, []string{"rand", k, "0", "1", "1"}})
 	}
-	sem := make(chan struct{}, 4)
+	sem := make(chan struct{}, r.Pick(4, 6))
 	var wg sync.WaitGroup
 	for _, j := range jobs {
 		wg.Add(1)
